@@ -852,6 +852,46 @@ def r15_6_free_while_linked(ck, P):
                         ck.ok(R, '%s unlinks before freeing' % f.name)
                     else:
                         ck.violation(R, f.name, 'free before unlink', '%s frees the object before unlinking it' % f.name, fr.loc())
+    # every free of an object of a type whose link member is entered into lists somewhere: unlinked first, or never linked (allocated here)
+    linked_types = set()
+    for f in P.functions():
+        for c in f.calls():
+            if c.callee in LINKERS:
+                lf = f.last_field(f.path(c.a[LINKERS[c.callee]]))
+                if lf:
+                    linked_types.add(lf.split('.')[0])
+    for f in P.functions():
+        for fr in f.calls('free'):
+            if not fr.a or fr.a[0][0] != 'v':
+                continue
+            src = f.v(f.strip_casts(fr.a[0]))
+            st = None; o_ = fr.a[0]
+            for _ in range(6):
+                if o_[0] == 'a':
+                    ty = f.params[o_[1]][1]
+                elif o_[0] == 'v':
+                    ty = f.by_id[o_[1]].ty
+                else:
+                    break
+                if ty.startswith('%struct.') and ty.endswith('*'):
+                    st = ty[len('%struct.'):-1]; break
+                y_ = f.v(o_)
+                if y_ is None or y_.op not in ('bitcast',):
+                    break
+                o_ = y_.a[0]
+            if st not in linked_types:
+                continue
+            n += 1; ck.saw(f)
+            base = f.root(f.path(fr.a[0]))
+            unl = [c for c in f.calls() if c.callee in UNLINKERS and f.root(f.path(c.a[UNLINKERS[c.callee]])) == base and f.dominates(c, fr)]
+            fresh = src is not None and src.op in ('call',) or (base[0] == 'call')
+            linked_here = [c for c in f.calls() if c.callee in LINKERS and f.root(f.path(c.a[LINKERS[c.callee]])) == base]
+            if unl or (fresh and not [c for c in linked_here if f.reach_avoiding(c, lambda y: False, lambda y: y is fr) is not None]):
+                ck.ok(R, '%s: %s object freed at %s is unlinked first (or was never linked)' % (f.name, st, fr.loc()))
+            elif fresh:
+                pass        # decided by the path rule above
+            else:
+                ck.violation(R, f.name, 'free of a %s without unlinking' % st, '%s frees a %s (%s) that may be on a list without unlinking it first: the list head keeps pointing at freed memory, and the next insertion or eviction writes to or frees it again' % (f.name, st, fr.loc()), fr.loc())
     if n == 0:
         ck.incomplete(R, 'no list link/unlink site found (list vocabulary renamed?)')
 
